@@ -494,6 +494,8 @@ func parseSearchQuery(query, countryCode string, withLogin bool) ([][]string, []
 		quo bool
 		// Current token is a quoted string
 		unquote bool
+		// The previous character closed a quoted string
+		closed bool
 		// Start of the current token
 		start int
 		// End of the current token
@@ -525,20 +527,26 @@ func parseSearchQuery(query, countryCode string, withLogin bool) ([][]string, []
 			}
 		}
 
+		var openQuote, closedQuote bool
 		if curr == QUO {
 			if ctx.quo {
 				// End of the quoted string. Close the quote.
 				ctx.quo = false
+				closedQuote = true
 			} else {
 				if prev == ORD {
 					// Reject strings like a"b
 					return nil, nil, fmt.Errorf("missing operator at or near %d", pos)
 				}
-				// Start of the quoted string. Open the quote.
-				ctx.quo = true
-				ctx.unquote = true
+				// Start of the quoted string. The quote is opened after the previous token, if any, is emitted.
+				openQuote = true
 			}
 			curr = ORD
+		}
+
+		if ctx.closed && curr == ORD {
+			// Reject strings like "a"b
+			return nil, nil, fmt.Errorf("missing operator at or near %d", pos)
 		}
 
 		// Parser: process the current lexem in context.
@@ -610,6 +618,12 @@ func parseSearchQuery(query, countryCode string, withLogin bool) ([][]string, []
 			ctx.postOp = NONE
 			ctx.unquote = false
 		}
+
+		if openQuote {
+			ctx.quo = true
+			ctx.unquote = true
+		}
+		ctx.closed = closedQuote
 
 		prev = curr
 	}
